@@ -102,6 +102,11 @@ def handle (ws : List String) : String :=
     match parseFloat? v, parseFloat? scale, parseFloat? slack with
     | some v, some scale, some slack => verdict (Aegean.Spec.C03.strOK s v scale slack)
     | _, _, _ => "bad-op"
+  | ["radec", ra, dec] =>      -- the position clauses for an island row
+    match parseFloat? ra, parseFloat? dec with
+    | some ra, some dec =>
+      if !(Aegean.Spec.C03.raOK ra) then "ra" else if !(Aegean.Spec.C03.decOK dec) then "dec" else "ok"
+    | _, _ => "bad-op"
   | ["free", nn, ms, mx] =>
     match nn.toNat?, ms.toNat?, b? mx with
     | some nn, some ms, some mx => toString (freeVars1 (summitFlag (estimateIsFlag nn ms) mx) mx)
